@@ -568,6 +568,25 @@ func (h *Hist) randomEvent() string {
 		}
 		return "annot-burst"
 	}
+	if focus == "rotate" && r.chance(15) {
+		// the group sits at its minimum, and on top of that holds a few nodes tainted long ago, some under the no-delete
+		// annotation: the rotation waits for them, the reaper must still take the due ones
+		cpu, mem := h.groupNodeSize(gi)
+		st, _ := h.ctl.VerifGroupState(o.Name)
+		k := r.rng(2, 3)
+		for i := 0; i < k && len(h.cfgIndexNodes(gi)) < st.MaxNodes; i++ {
+			n := h.addNode(gi, cpu, mem, int64(r.pickI(5000, 9000, 86400)), true)
+			n.Taints = append(n.Taints, WTaint{Key: escKey, Effect: "NoSchedule", Rel: true, Ago: []int64{soft + 1, hard + 1, 2 * hard}[r.intn(3)]})
+			if r.chance(50) {
+				n.Annotations[noDeleteKey] = r.pick("true", "keep", "being debugged")
+			}
+		}
+		g := h.aws.asgs[o.CloudProviderGroupName]
+		if int64(len(g.Instances)) > g.Desired {
+			g.Desired = int64(len(g.Instances))
+		}
+		return "tainted-extras"
+	}
 	if focus == "faults" && r.chance(30) {
 		ev = r.pickI(15, 15, 4, 19, 13) // odd nodes, odd taint values, vanished objects, deliveries
 	}
